@@ -111,6 +111,8 @@ type btrack struct {
 	incarnAcc  int
 	reinjected int
 	absentEpoch int
+	overlapRMW  bool         // two read-modify-write sequences on this bundle's routing state overlapped
+	noSpread    map[int]bool // peers that came up while the destination was connected (direct delivery had precedence)
 }
 
 type peerState struct {
@@ -140,6 +142,13 @@ type simPeer struct {
 }
 
 func (p *simPeer) Start() (error, bool) {
+	// a schedule point: whether a dispatch running at the same instant (cron tick = manager retry
+	// tick) sees this adapter active is decided by the scheduler, not by the Go runtime
+	// (only when the start would succeed: failing starts of waiting adapters on a retry tick come in
+	// sync.Map order, which the harness does not own, and have no effect)
+	if !p.dead && p.ps.up {
+		p.n.sched.Park("start", "p"+strconv.Itoa(p.ps.idx), nil)
+	}
 	p.mu.Lock()
 	defer p.mu.Unlock()
 	p.starts++
@@ -308,6 +317,7 @@ type nodeSim struct {
 	serialNo   int
 
 	retryEvery time.Duration
+	lastReleased string
 	aborted    bool
 }
 
@@ -410,6 +420,7 @@ func (n *nodeSim) settle() {
 		if len(parked) == 0 {
 			return
 		}
+		n.noteOverlaps(parked)
 		n.steps++
 		if n.steps > 20000 {
 			if !n.aborted {
@@ -422,13 +433,7 @@ func (n *nodeSim) settle() {
 			}
 			continue
 		}
-		var t *simk.Task
-		if n.concurrent && len(parked) > 1 {
-			t = parked[int(simk.Decide(n.seed, "pick", strconv.Itoa(n.steps), parked[0].Label)%uint64(len(parked)))]
-			n.res.Probe("sched_choice_among_many")
-		} else {
-			t = parked[0]
-		}
+		t := n.pick(parked)
 		if rec, ok := t.Data.(*sendRec); ok {
 			out := n.decideSend(rec)
 			rec.outcome = out
@@ -443,6 +448,72 @@ func (n *nodeSim) settle() {
 			n.sched.Release(t, "go")
 		}
 	}
+}
+
+// noteOverlaps records that two tasks are parked before a write of the same bundle's state.
+func (n *nodeSim) noteOverlaps(parked []*simk.Task) {
+	cnt := map[string]int{}
+	for _, t := range parked {
+		if t.Point == "store.update" || strings.HasSuffix(t.Point, ".write") {
+			cnt[t.Key]++
+		}
+	}
+	for k, c := range cnt {
+		if c < 2 {
+			continue
+		}
+		n.res.Probe("overlapping_rmw")
+		for _, tr := range n.tracks {
+			if tr.id.Scrub().String() == k || n.wireIDMatches(tr, k) {
+				tr.overlapRMW = true
+			}
+		}
+	}
+}
+
+func (n *nodeSim) wireIDMatches(tr *btrack, key string) bool {
+	for _, s := range tr.sends {
+		if s.idStr == key {
+			return true
+		}
+	}
+	return false
+}
+
+// pick chooses the next task. Serial mode is run-to-completion: the descendants of the task
+// released last go first, so a logical thread finishes before another one starts and no two
+// read-modify-write sections overlap. Concurrent mode mixes that with seeded random choices.
+func (n *nodeSim) pick(parked []*simk.Task) *simk.Task {
+	var child *simk.Task
+	if n.lastReleased != "" {
+		for _, t := range parked {
+			if strings.HasPrefix(t.Label, n.lastReleased+">") {
+				child = t
+				break
+			}
+		}
+	}
+	var t *simk.Task
+	switch {
+	case len(parked) == 1:
+		t = parked[0]
+	case !n.concurrent:
+		if child != nil {
+			t = child
+		} else {
+			t = parked[0]
+		}
+	default:
+		n.res.Probe("sched_choice_among_many")
+		d := simk.Decide(n.seed, "pick", strconv.Itoa(n.steps))
+		if child != nil && d%100 < 55 {
+			t = child
+		} else {
+			t = parked[int((d>>8)%uint64(len(parked)))]
+		}
+	}
+	n.lastReleased = t.Label
+	return t
 }
 
 func shortKey(k string) string {
@@ -516,9 +587,6 @@ func (n *nodeSim) noteSend(rec *sendRec, t *simk.Task) {
 }
 
 func (n *nodeSim) hook(point, key string) {
-	if !n.hookSet[point] {
-		return
-	}
 	n.sched.Park("store."+point, key, nil)
 }
 
@@ -755,7 +823,7 @@ func (n *nodeSim) exec(op simk.Op) {
 	case "advance":
 		n.advance(time.Duration(op.N) * time.Millisecond)
 	case "restart":
-		n.opRestart()
+		n.opRestart(time.Duration(op.N) * time.Millisecond)
 	case "faults_off":
 		n.faultsOff = true
 		n.faultsOffEpoch = n.epoch
@@ -779,8 +847,13 @@ func (n *nodeSim) track(i int, sp *BSpec, b bpv7.Bundle, via string, from int) *
 		return tr
 	}
 	wire, _ := encodeBundle(&b)
-	// the encoding must be stable: parse it back so tr.bundle is what a CLA would produce
-	tr = &btrack{idx: i, spec: sp, bundle: b, wire: wire, id: b.ID(), injected: true, via: via, fromPeer: from,
+	// the harness keeps its own deep copy (parsed from the encoding): the node mutates the
+	// block slice of the bundle it is handed
+	own, perr := bpv7.ParseBundle(bytes.NewReader(wire))
+	if perr != nil {
+		own = b
+	}
+	tr = &btrack{idx: i, spec: sp, bundle: own, wire: wire, id: b.ID(), injected: true, via: via, fromPeer: from,
 		tAccept: time.Now(), epochAcc: n.epoch + 1, incarnAcc: n.incarn}
 	tr.life = time.Duration(sp.LifeMs) * time.Millisecond
 	if b.PrimaryBlock.CreationTimestamp.IsZeroTime() {
@@ -919,7 +992,7 @@ func (n *nodeSim) opPeerDown(p int) {
 	}
 }
 
-func (n *nodeSim) opRestart() {
+func (n *nodeSim) opRestart(down time.Duration) {
 	if n.core == nil {
 		return
 	}
@@ -938,6 +1011,10 @@ func (n *nodeSim) opRestart() {
 		ps.up = false
 	}
 	n.stopCore()
+	if down < time.Millisecond {
+		down = time.Millisecond // a restart takes time: never two incarnations in one millisecond
+	}
+	time.Sleep(down)
 	if err := n.startCore(); err != nil {
 		n.res.HarnessErr = "restart NewCore: " + err.Error()
 		n.aborted = true
